@@ -93,6 +93,7 @@ type Evidence struct {
 	Evaluations int                    `json:"evaluations"`
 	Skipped     int                    `json:"skipped_after_deadline"`
 	NonTrivial  map[string]bool        `json:"nontrivial_hashes"`
+	NTDisjoint  int                    `json:"nontrivial_disjoint_count"` // non-trivial cases of enumerations that are distinct by construction
 	Classes     map[string]int         `json:"classes"`
 	Samples     []interface{}          `json:"samples"`
 	Violations  []ViolationRecord      `json:"violations"`
@@ -134,6 +135,23 @@ func (e *Evidence) Record(c interface{}, nontrivial bool, classes ...string) {
 			if len(e.Samples) < 3 {
 				e.Samples = append(e.Samples, c)
 			}
+		}
+	}
+}
+
+// RecordEnumerated notes one case of an enumeration whose cases are distinct
+// by construction (also across shards), so no hash needs to be kept.
+func (e *Evidence) RecordEnumerated(c interface{}, nontrivial bool, classes ...string) {
+	e.mu.Lock()
+	defer e.mu.Unlock()
+	e.Evaluations++
+	for _, cl := range classes {
+		e.Classes[cl]++
+	}
+	if nontrivial {
+		e.NTDisjoint++
+		if len(e.Samples) < 3 {
+			e.Samples = append(e.Samples, c)
 		}
 	}
 }
@@ -304,4 +322,16 @@ func regressFiles(property string) []string {
 	dir := getenv("VERIF_REGRESS", "/verif/regress")
 	m, _ := filepath.Glob(filepath.Join(dir, property, "*.json"))
 	return m
+}
+
+func readReplayRaw(path string) Replay {
+	var r Replay
+	b, err := os.ReadFile(path)
+	if err != nil {
+		panic(infraError{err})
+	}
+	if err = json.Unmarshal(b, &r); err != nil {
+		panic(infraError{err})
+	}
+	return r
 }
